@@ -282,6 +282,17 @@ impl E {
     }
 }
 
+impl Helper {
+    pub fn text(&self) -> String {
+        match self {
+            Helper::Fun { name, inline, params, body } => format!("({} {} {} {})", if *inline { "defun-inline" } else { "defun" }, name, params.text(), body.text()),
+            Helper::Constant { name, datum } => format!("(defconstant {} {})", name, datum_text(datum)),
+            Helper::Const { name, body } => format!("(defconst {} {})", name, body.text()),
+            Helper::Macro { name, params, template } => format!("(defmacro {} ({}) (qq {}))", name, params.join(" "), template.text_(Some(params))),
+        }
+    }
+}
+
 impl Prog {
     pub fn text(&self) -> String {
         let mut s = format!("(mod {}", self.params.text());
@@ -290,12 +301,7 @@ impl Prog {
         }
         for h in &self.helpers {
             s.push(' ');
-            match h {
-                Helper::Fun { name, inline, params, body } => s.push_str(&format!("({} {} {} {})", if *inline { "defun-inline" } else { "defun" }, name, params.text(), body.text())),
-                Helper::Constant { name, datum } => s.push_str(&format!("(defconstant {} {})", name, datum_text(datum))),
-                Helper::Const { name, body } => s.push_str(&format!("(defconst {} {})", name, body.text())),
-                Helper::Macro { name, params, template } => s.push_str(&format!("(defmacro {} ({}) (qq {}))", name, params.join(" "), template.text_(Some(params)))),
-            }
+            s.push_str(&h.text());
         }
         s.push(' ');
         s.push_str(&self.body.text());
